@@ -26,7 +26,7 @@ Theorem C13_relax_redirects : forall simple astr mredir cdres injrisk rulematch 
   let t := T k ss fs ks in
   str_eqb k $"heredoc" = false -> snd c = true ->
   r_redir (ev simple astr mredir cdres injrisk rulematch t) c =
-  match child "target" t with Some w => r_wp (ev simple astr mredir cdres injrisk rulematch w) false c | None => [] end.
+  match child "target" t with Some w => r_wp (ev simple astr mredir cdres injrisk rulematch w) (str_eqb (attr_d "op" t) HERESTRING_OP) c | None => [] end.
 Proof. exact remote_redirect. Qed.
 Print Assumptions C13_relax_redirects.
 
